@@ -160,121 +160,129 @@ def touchKind (st : Store) (kind : Kind) (k : Bytes) (ms : List Bytes) : Option 
   | none => some (Store.put st k ⟨kind, ms.eraseDups, none⟩)
   | some e => if e.kind != kind then none else some (Store.put st k { e with members := addMembers e.members ms })
 
+def propSet (cfg : RedisCfg) (now : Nat) (st : Store) (c : Cmd) : Store × List Cmd :=
+  match c.args with
+  | k :: v :: opts =>
+    let o := parseSetOpts now opts {}
+    if o.bad || (o.nx && o.xx) || (o.keepttl && o.exp.isSome) then (st, [])
+    else
+      let (st1, pre) := lazyExpire cfg now st k
+      let old := st1.get k
+      if (o.nx && old.isSome) || (o.xx && old.isNone) then (st1, pre)
+      else
+        match o.exp with
+        | some abs =>
+          (Store.put st1 k ⟨.str, [], some abs⟩,
+           pre ++ [if cfg.setPxat then ⟨wSet, [k, v, wPxat, natToDec abs]⟩ else ⟨c.name, k :: v :: dropGet opts⟩])
+        | none =>
+          let keep := if o.keepttl then old.bind (·.expireAt) else none
+          (Store.put st1 k ⟨.str, [], keep⟩, pre ++ [⟨c.name, k :: v :: dropGet opts⟩])
+  | _ => (st, [])
+
+def propDel (cfg : RedisCfg) (now : Nat) (st : Store) (c : Cmd) : Store × List Cmd :=
+  let (st1, pre) := lazyExpireAll cfg now st c.args
+  let hit := c.args.filter (fun k => (st1.get k).isSome)
+  if hit.isEmpty then (st1, pre)
+  else (hit.foldl Store.del st1, pre ++ [c])
+
+/-- `n` is the lower-cased name: expire | pexpire | expireat | pexpireat -/
+def propExpire (cfg : RedisCfg) (now : Nat) (st : Store) (n : Bytes) (c : Cmd) : Store × List Cmd :=
+  match c.args with
+  | [k, t] =>
+    match decToNat? t with
+    | none => (st, [])
+    | some v =>
+      let abs := if n == wExpire then now + v * 1000 else if n == wPexpire then now + v
+                 else if n == wExpireat then v * 1000 else v
+      let (st1, pre) := lazyExpire cfg now st k
+      match st1.get k with
+      | none => (st1, pre)
+      | some e =>
+        if abs ≤ now then (Store.del st1 k, pre ++ [delCmd cfg k])
+        else (Store.put st1 k { e with expireAt := some abs }, pre ++ [⟨wPexpireat, [k, natToDec abs]⟩])
+  | _ => (st, [c])      -- option forms (NX/XX/GT/LT): outside the transcription, passed through
+
+def propPersist (cfg : RedisCfg) (now : Nat) (st : Store) (c : Cmd) : Store × List Cmd :=
+  match c.args with
+  | [k] =>
+    let (st1, pre) := lazyExpire cfg now st k
+    match st1.get k with
+    | some e => if e.expireAt.isSome then (Store.put st1 k { e with expireAt := none }, pre ++ [c]) else (st1, pre)
+    | none => (st1, pre)
+  | _ => (st, [])
+
+/-- HSET / HMSET / ZADD: create or extend a collection, always a change -/
+def propAdd (cfg : RedisCfg) (now : Nat) (st : Store) (kind : Kind) (members : List Bytes → List Bytes)
+    (c : Cmd) : Store × List Cmd :=
+  match c.args with
+  | k :: rest =>
+    let (st1, pre) := lazyExpire cfg now st k
+    match touchKind st1 kind k (members rest) with
+    | none => (st1, pre)
+    | some st2 => (st2, pre ++ [c])
+  | _ => (st, [])
+
+/-- HDEL / SREM / ZREM -/
+def propRem (cfg : RedisCfg) (now : Nat) (st : Store) (kind : Kind) (c : Cmd) : Store × List Cmd :=
+  match c.args with
+  | k :: ms => let (st1, pre) := lazyExpire cfg now st k; remMembers st1 kind c k ms pre
+  | _ => (st, [])
+
+def propSadd (cfg : RedisCfg) (now : Nat) (st : Store) (c : Cmd) : Store × List Cmd :=
+  match c.args with
+  | k :: ms =>
+    let (st1, pre) := lazyExpire cfg now st k
+    let fresh := match st1.get k with
+      | none => !ms.isEmpty
+      | some e => ms.any (fun m => !e.members.contains m)
+    match touchKind st1 .set k ms with
+    | none => (st1, pre)
+    | some st2 => if fresh then (st2, pre ++ [c]) else (st1, pre)
+  | _ => (st, [])
+
+def propRestore (cfg : RedisCfg) (now : Nat) (st : Store) (c : Cmd) : Store × List Cmd :=
+  match c.args with
+  | k :: t :: payload :: opts =>
+    match decToNat? t with
+    | none => (st, [])
+    | some v =>
+      let ups := opts.map Filter.upper
+      let (st1, pre) := lazyExpire cfg now st k
+      if (st1.get k).isSome && !ups.contains uREPLACE then (st1, pre)     -- BUSYKEY
+      else
+        let absttl := ups.contains uABSTTL
+        let exp : Option Nat := if v == 0 then none else some (if absttl then v else now + v)
+        let out : Cmd :=
+          if v == 0 || absttl then c
+          else ⟨c.name, k :: natToDec (now + v) :: payload :: opts ++ [wAbsttl]⟩
+        (Store.put st1 k ⟨.other, [], exp⟩, pre ++ [out])
+  | _ => (st, [])
+
+/-- any other write: the keys the static tables name are looked up for writing
+    (lazy expiry), the command counts as a change and passes verbatim -/
+def propOther (cfg : RedisCfg) (now : Nat) (st : Store) (c : Cmd) : Store × List Cmd :=
+  let keys := (commandKeys c.name c.args).getD []
+  let (st1, pre) := lazyExpireAll cfg now st keys
+  let st2 := match keys with
+    | k :: _ => if (st1.get k).isSome then st1 else Store.put st1 k ⟨.other, [], none⟩
+    | [] => st1
+  (st2, pre ++ [c])
+
 /-- what the master propagates for `c` executed at time `now` on `st` -/
 def propagate (cfg : RedisCfg) (now : Nat) (st : Store) (c : Cmd) : Store × List Cmd :=
   let n := lower c.name
-  if n == wSet then
-    match c.args with
-    | k :: v :: opts =>
-      let o := parseSetOpts now opts {}
-      if o.bad || (o.nx && o.xx) || (o.keepttl && o.exp.isSome) then (st, [])
-      else
-        let (st1, pre) := lazyExpire cfg now st k
-        let old := st1.get k
-        if (o.nx && old.isSome) || (o.xx && old.isNone) then (st1, pre)
-        else
-          match o.exp with
-          | some abs =>
-            (Store.put st1 k ⟨.str, [], some abs⟩,
-             pre ++ [if cfg.setPxat then ⟨wSet, [k, v, wPxat, natToDec abs]⟩ else ⟨c.name, k :: v :: dropGet opts⟩])
-          | none =>
-            let keep := if o.keepttl then old.bind (·.expireAt) else none
-            (Store.put st1 k ⟨.str, [], keep⟩, pre ++ [⟨c.name, k :: v :: dropGet opts⟩])
-    | _ => (st, [])
-  else if n == wDel || n == wUnlink then
-    let (st1, pre) := lazyExpireAll cfg now st c.args
-    let hit := c.args.filter (fun k => (st1.get k).isSome)
-    if hit.isEmpty then (st1, pre)
-    else (hit.foldl Store.del st1, pre ++ [c])
-  else if n == wExpire || n == wPexpire || n == wExpireat || n == wPexpireat then
-    match c.args with
-    | [k, t] =>
-      match decToNat? t with
-      | none => (st, [])
-      | some v =>
-        let abs := if n == wExpire then now + v * 1000 else if n == wPexpire then now + v
-                   else if n == wExpireat then v * 1000 else v
-        let (st1, pre) := lazyExpire cfg now st k
-        match st1.get k with
-        | none => (st1, pre)
-        | some e =>
-          if abs ≤ now then (Store.del st1 k, pre ++ [delCmd cfg k])
-          else (Store.put st1 k { e with expireAt := some abs }, pre ++ [⟨wPexpireat, [k, natToDec abs]⟩])
-    | _ => (st, [c])      -- option forms (NX/XX/GT/LT): outside the transcription, passed through
-  else if n == wPersist then
-    match c.args with
-    | [k] =>
-      let (st1, pre) := lazyExpire cfg now st k
-      match st1.get k with
-      | some e => if e.expireAt.isSome then (Store.put st1 k { e with expireAt := none }, pre ++ [c]) else (st1, pre)
-      | none => (st1, pre)
-    | _ => (st, [])
-  else if n == wHset || n == wHmset then
-    match c.args with
-    | k :: fv =>
-      let (st1, pre) := lazyExpire cfg now st k
-      match touchKind st1 .hash k (fieldNames fv) with
-      | none => (st1, pre)
-      | some st2 => (st2, pre ++ [c])
-    | _ => (st, [])
-  else if n == wHdel then
-    match c.args with
-    | k :: ms => let (st1, pre) := lazyExpire cfg now st k; remMembers st1 .hash c k ms pre
-    | _ => (st, [])
-  else if n == wSadd then
-    match c.args with
-    | k :: ms =>
-      let (st1, pre) := lazyExpire cfg now st k
-      let fresh := match st1.get k with
-        | none => !ms.isEmpty
-        | some e => ms.any (fun m => !e.members.contains m)
-      match touchKind st1 .set k ms with
-      | none => (st1, pre)
-      | some st2 => if fresh then (st2, pre ++ [c]) else (st1, pre)
-    | _ => (st, [])
-  else if n == wSrem then
-    match c.args with
-    | k :: ms => let (st1, pre) := lazyExpire cfg now st k; remMembers st1 .set c k ms pre
-    | _ => (st, [])
-  else if n == wZadd then
-    match c.args with
-    | k :: sm =>
-      let (st1, pre) := lazyExpire cfg now st k
-      -- always counted as a change (a repeated score is not told apart)
-      match touchKind st1 .zset k (oddPos sm) with
-      | none => (st1, pre)
-      | some st2 => (st2, pre ++ [c])
-    | _ => (st, [])
-  else if n == wZrem then
-    match c.args with
-    | k :: ms => let (st1, pre) := lazyExpire cfg now st k; remMembers st1 .zset c k ms pre
-    | _ => (st, [])
-  else if n == wRestore then
-    match c.args with
-    | k :: t :: payload :: opts =>
-      match decToNat? t with
-      | none => (st, [])
-      | some v =>
-        let ups := opts.map Filter.upper
-        let (st1, pre) := lazyExpire cfg now st k
-        if (st1.get k).isSome && !ups.contains uREPLACE then (st1, pre)     -- BUSYKEY
-        else
-          let absttl := ups.contains uABSTTL
-          let exp : Option Nat := if v == 0 then none else some (if absttl then v else now + v)
-          let out : Cmd :=
-            if v == 0 || absttl then c
-            else ⟨c.name, k :: natToDec (now + v) :: payload :: opts ++ [wAbsttl]⟩
-          (Store.put st1 k ⟨.other, [], exp⟩, pre ++ [out])
-    | _ => (st, [])
-  else
-    -- any other write: the keys the static tables name are looked up for
-    -- writing (lazy expiry), the command counts as a change and passes verbatim
-    let keys := (commandKeys c.name c.args).getD []
-    let (st1, pre) := lazyExpireAll cfg now st keys
-    let st2 := match keys with
-      | k :: _ => if (st1.get k).isSome then st1 else Store.put st1 k ⟨.other, [], none⟩
-      | [] => st1
-    (st2, pre ++ [c])
+  if n == wSet then propSet cfg now st c
+  else if n == wDel || n == wUnlink then propDel cfg now st c
+  else if n == wExpire || n == wPexpire || n == wExpireat || n == wPexpireat then propExpire cfg now st n c
+  else if n == wPersist then propPersist cfg now st c
+  else if n == wHset || n == wHmset then propAdd cfg now st .hash fieldNames c
+  else if n == wHdel then propRem cfg now st .hash c
+  else if n == wSadd then propSadd cfg now st c
+  else if n == wSrem then propRem cfg now st .set c
+  else if n == wZadd then propAdd cfg now st .zset oddPos c
+  else if n == wZrem then propRem cfg now st .zset c
+  else if n == wRestore then propRestore cfg now st c
+  else propOther cfg now st c
 
 /-- the commands of one execution, in order -/
 def execCmds (cfg : RedisCfg) (now : Nat) : Store → List Cmd → Store × List Cmd
